@@ -93,8 +93,56 @@ Class(l) ==
          ELSE IF t[1] = 98 /\ PrefixCI(t, S_begin_) THEN "begin"
          ELSE IF t[1] = 101 /\ (PrefixCI(t, S_end_) \/ LowerSeq(t) = S_end) THEN "end"
          ELSE "text"
-BeginName(l)     == Word(Trim(l.t), 2)
-IncludeTarget(l) == Word(SubSeq(Trim(l.t), 2, Len(Trim(l.t))), 2)
+(* Words with quoting (spiftool_get_word, C): a word that starts with " or ' runs to the matching quote (or the end of the   *)
+(* line) and may be EMPTY; elsewhere a quote is an ordinary character; a backslash before either quote character drops out   *)
+(* and the quote is taken literally.  GetWordQ(s, k) = [ok |-> the k-th word exists, w |-> its text].                         *)
+IsQuote(c) == c = 34 \/ c = 39
+RECURSIVE Collect(_, _, _, _)
+Collect(s, q, d, acc) ==                                   \* d = closing quote, 0 = white space ends the word
+    IF q > Len(s) \/ (IF d = 0 THEN IsWs(s[q]) ELSE s[q] = d) THEN [w |-> acc, q |-> q]
+    ELSE IF s[q] = 92 /\ q < Len(s) /\ IsQuote(s[q + 1]) THEN Collect(s, q + 2, d, TLCEval(Append(acc, s[q + 1])))
+    ELSE Collect(s, q + 1, d, TLCEval(Append(acc, s[q])))
+RECURSIVE GetWordFrom(_, _, _)
+GetWordFrom(s, i, k) ==
+    LET rest == {j \in i .. Len(s) : ~IsWs(s[j])} IN
+    IF rest = {} THEN [ok |-> FALSE, w |-> <<>>]
+    ELSE LET p == SetMin(rest)
+             d == IF IsQuote(s[p]) THEN s[p] ELSE 0
+             r == Collect(s, IF d = 0 THEN p ELSE p + 1, d, <<>>)
+             nxt == IF r.q <= Len(s) /\ IsQuote(s[r.q]) THEN r.q + 1 ELSE r.q
+         IN IF k = 1 THEN [ok |-> TRUE, w |-> r.w] ELSE GetWordFrom(s, nxt, k - 1)
+GetWordQ(s, k) == GetWordFrom(s, 1, k)
+
+(* The part of value expansion (spifconf_shell_expand; its full specification is Expand.tla, C10) that a file NAME meets:      *)
+(* quoting levels and the characters ~ \ $ inside each of them (C, DESIGN 8a).  Quote characters are copied through; '~' is  *)
+(* the value of HOME outside quotes only; a backslash pair is an escape except inside single quotes (where only \' is);       *)
+(* $NAME (letters, digits, _) is replaced by the variable's value except inside single quotes, nothing if unset.             *)
+(* X: %, back-quote, ${ $( forms, a single quote inside double quotes.  env = [home, vname, vval] (<<>> = unset).              *)
+NameCh(c) == (c >= 48 /\ c <= 57) \/ (c >= 65 /\ c <= 90) \/ (c >= 97 /\ c <= 122) \/ c = 95
+EscOf(d)  == LET c == Lower(d) IN
+             CASE c = 110 -> 10 [] c = 114 -> 13 [] c = 116 -> 9 [] c = 98 -> 8 [] c = 102 -> 12 [] c = 97 -> 7 [] c = 118 -> 11 [] c = 101 -> 27 [] OTHER -> d
+EnvVal(env, nm) == IF nm = <<72, 79, 77, 69>> THEN env.home ELSE IF nm # <<>> /\ nm = env.vname THEN env.vval ELSE <<>>
+RECURSIVE ExpandFrom(_, _, _, _, _)
+ExpandFrom(s, i, sq, dq, env) ==
+    IF i > Len(s) THEN <<>>
+    ELSE LET c == s[i] IN
+         CASE c = 126 -> (IF ~sq /\ ~dq /\ env.home # <<>> THEN env.home ELSE <<c>>) \o ExpandFrom(s, i + 1, sq, dq, env)
+           [] c = 92  -> IF i = Len(s) THEN <<c>>
+                         ELSE IF ~sq \/ s[i + 1] = 39 THEN <<EscOf(s[i + 1])>> \o ExpandFrom(s, i + 2, sq, dq, env)
+                         ELSE <<c, s[i + 1]>> \o ExpandFrom(s, i + 2, sq, dq, env)
+           [] c = 36  -> IF sq THEN <<c>> \o ExpandFrom(s, i + 1, sq, dq, env)
+                         ELSE LET stop == {j \in (i + 1) .. Len(s) : ~NameCh(s[j])}
+                                  e == IF stop = {} THEN Len(s) ELSE SetMin(stop) - 1
+                              IN EnvVal(env, SubSeq(s, i + 1, e)) \o ExpandFrom(s, e + 1, sq, dq, env)
+           [] c = 34  -> <<c>> \o ExpandFrom(s, i + 1, sq, IF sq THEN dq ELSE ~dq, env)
+           [] c = 39  -> <<c>> \o ExpandFrom(s, i + 1, ~sq, dq, env)
+           [] OTHER   -> <<c>> \o ExpandFrom(s, i + 1, sq, dq, env)
+ExpandName(s, env) == ExpandFrom(s, 1, FALSE, FALSE, env)
+
+BeginName(l)     == GetWordQ(Trim(l.t), 2).w                 \* the begin line is not expanded; "" names the context registered as ""
+IncludeRaw(l)    == SubSeq(Trim(l.t), 2, Len(Trim(l.t)))    \* what follows the '%': expanded as a whole, THEN word 2 is taken (S: the
+                                                             \* quoting of the name is in force while it is expanded)
+NameOfInclude(raw, env) == GetWordQ(ExpandName(raw, env), 2).w   \* <<>> if there is no such word: no file
 \* delivered form of a text line: whitespace trimmed (S); leading 'x' run counted (representation only)
 LeadX(t)    == IF \A i \in 1 .. Len(t) : t[i] = 120 THEN Len(t) ELSE SetMin({i \in 1 .. Len(t) : t[i] # 120}) - 1
 Delivered(l) == LET t == IF l.x > 0 THEN RTrim(l.t) ELSE Trim(l.t)
@@ -110,7 +158,7 @@ PutVar(t) == IF PrefixCI(t, S_put) /\ t[Len(t)] = 41
 Scan(l) == LET c == Class(l) IN
            [c |-> c,
             name |-> IF c = "begin" THEN BeginName(l) ELSE <<>>,
-            target |-> IF c = "include" THEN IncludeTarget(l) ELSE <<>>,
+            target |-> IF c = "include" THEN IncludeRaw(l) ELSE <<>>,      \* unexpanded: the environment is part of the configuration
             dl |-> IF c = "text" THEN Delivered(l) ELSE [x |-> 0, t |-> <<>>],
             put |-> IF c = "directive" THEN PutVar(Trim(l.t)) ELSE {}]
 
@@ -283,17 +331,17 @@ OpInclude ==                                                  \* S: the included
     /\ Did("OpInclude")
     /\ Parsing
     /\ \E l \in Avail :
-        /\ Sc(l).c = "include" /\ Opens(Resolve(Sc(l).target)) /\ Take(l)
+        /\ Sc(l).c = "include" /\ Opens(Resolve(NameOfInclude(Sc(l).target, cfg.env))) /\ Take(l)
         /\ IF Top.skip \/ f_idx = 255
            THEN phase' = "beyond" /\ UNCH_fst                  \* X: %include while skipping; more files than the index counts
            ELSE /\ phase' = phase
-                /\ fst' = Append(Advance, [f |-> Resolve(Sc(l).target), pos |-> 0, skip |-> FALSE])
+                /\ fst' = Append(Advance, [f |-> Resolve(NameOfInclude(Sc(l).target, cfg.env)), pos |-> 0, skip |-> FALSE])
                 /\ f_idx' = Inc8(f_idx) /\ f_cnt' = Grow(Inc8(f_idx), f_cnt)
     /\ UNCHANGED <<cfg, regpos, closed, vars, retnull, skipUsed>> /\ UNCH_ctab /\ UNCH_cst /\ UNCH_out
 OpIncludeMissing ==                                           \* reported, parsing continues
     /\ Did("OpIncludeMissing")
     /\ Parsing
-    /\ \E l \in Avail : Sc(l).c = "include" /\ ~Opens(Resolve(Sc(l).target)) /\ Quiet(l)
+    /\ \E l \in Avail : Sc(l).c = "include" /\ ~Opens(Resolve(NameOfInclude(Sc(l).target, cfg.env))) /\ Quiet(l)
 OpPreproc ==                                                  \* X: %preproc spawns a process (C11)
     /\ Did("OpPreproc")
     /\ Parsing
@@ -333,7 +381,7 @@ RECURSIVE FlatFrom(_, _, _)
 FlatFrom(f, i, d) ==                                          \* lines of file f from line i on, includes spliced in
     IF i > FLen(f) THEN <<>>
     ELSE LET l == FLine(f, i)
-             g == IF Sc(l).c = "include" THEN Resolve(Sc(l).target) ELSE 0
+             g == IF Sc(l).c = "include" THEN Resolve(NameOfInclude(Sc(l).target, cfg.env)) ELSE 0
          IN (IF d > 0 /\ Opens(g) THEN FlatFrom(g, 1, d - 1) ELSE <<l>>) \o FlatFrom(f, i + 1, d)
 Flat == FlatFrom(1, 1, NFiles)
 RECURSIVE RefFold(_, _, _, _)
